@@ -982,6 +982,7 @@ func runC01(cfg Config) {
 		}
 	}
 	runC01Traces(cfg, rep, m, rng)
+	c01RealBackends(cfg, rep, rng)
 	c01CLI(cfg, rep, rng)
 	rep.Write(cfg.Out)
 }
